@@ -184,7 +184,7 @@ def replay_schedule(M, kind, pids, evs, now):
             # wait until the call has been made: the process reaches its next point or exits
             nxt = procs[p].waiting_at()
             after_pc = {int(q): c for q, c in tr[i + 1][2]}[p]
-            if pc == "write":
+            if pc == "create" and after_pc == "critical":
                 crit.add(p)
                 max_overlap = max(max_overlap, len(crit))
             real_lock = lock_class(sb, pidmap, now)
@@ -269,7 +269,7 @@ def run(R):
     nsched = 10 if R.tier == "quick" else 120
     # the refutation schedule of the theorem first (two processes, stale lock)
     fixed = [("stale", [1, 2], [["step", 1], ["step", 2], ["step", 1], ["step", 1], ["step", 2], ["step", 2],
-                                ["step", 1], ["step", 1], ["step", 1], ["step", 2], ["step", 2], ["step", 2]])]
+                                ["step", 1], ["step", 1], ["step", 2], ["step", 2]])]
     cases = list(fixed)
     for i in range(nsched):
         kind = INIT_STATES[i % len(INIT_STATES)]
